@@ -148,6 +148,13 @@ func newGWorld(t *testing.T, sc *GScenario, seed int64) *gworld {
 		require.NoError(t, accs[i].ConvertMultisig(len(storedPriv)*2/3+1, slices.Clone(pubs)))
 	}
 	w.sg["STORED"] = neotest.NewMultiSigner(accs...)
+	// k/2+1 multi-signature account of the STORED keys (the "committee majority" of the stored list)
+	maj := make([]*wallet.Account, len(storedPriv))
+	for i := range storedPriv {
+		maj[i] = wallet.NewAccountFromPrivateKey(storedPriv[i])
+		require.NoError(t, maj[i].ConvertMultisig(len(storedPriv)/2+1, slices.Clone(pubs)))
+	}
+	w.sg["STOREDMAJ"] = neotest.NewMultiSigner(maj...)
 	for _, r := range gasIR {
 		k := chain.DetKey(seed, "ir|"+r)
 		w.irPubs = append(w.irPubs, k.PublicKey().Bytes())
@@ -226,6 +233,11 @@ func (w *gworld) signers(S []string) ([]neotest.Signer, []string) {
 			out = append(out, w.c.Cmt)
 			if same {
 				set["ALPHA"] = true
+			}
+		case "STORED", "STOREDMAJ":
+			out = append(out, w.sg[s])
+			if w.sg["STORED"].ScriptHash() == w.sg["STOREDMAJ"].ScriptHash() { // k in {1,2,4}: one account
+				set["STORED"], set["STOREDMAJ"] = true, true
 			}
 		default:
 			sg, ok := w.sg[s]
@@ -637,8 +649,12 @@ func randGasScenario(r *rand.Rand) *GScenario {
 			return []string{natural}
 		}
 	}
+	approvers := []string{"ALPHA", "CMT", "STORED", "STOREDMAJ", "m0", "m" + strconv.Itoa(nc-1), "X"}
 	alphaSig := func() string {
 		if sc.Notary {
+			if r.Intn(2) == 0 { // the approver is a dimension: every account that could be mistaken for the Alphabet
+				return approvers[r.Intn(len(approvers))]
+			}
 			return "ALPHA"
 		}
 		return gasKeys[r.Intn(sc.NS)]
@@ -674,7 +690,7 @@ func randGasScenario(r *rand.Rand) *GScenario {
 			nat := c
 			if act == "candRemove" && r.Intn(3) == 0 {
 				nat = "STORED"
-				if !sc.Notary {
+				if !sc.Notary || r.Intn(2) == 0 {
 					nat = alphaSig()
 				}
 			}
@@ -689,6 +705,8 @@ func randGasScenario(r *rand.Rand) *GScenario {
 		case k < 13:
 			sc.Steps = append(sc.Steps, GStep{Act: "setFee", S: sigOr(alphaSig()), K: pick([]string{"wfee", "cfee"}),
 				Amt: [][]int64{gasAmt(0, 0), gasAmt(0, 1), gasAmt(0, 100_0000), gasAmt(1, 0), gasAmt(5, 5), gasAmt(200, 0)}[r.Intn(6)], ID: "j1"})
+		case k < 14 && r.Intn(3) == 0:
+			sc.Steps = append(sc.Steps, GStep{Act: "alphaSame", S: sigOr(alphaSig()), ID: "a1"})
 		case k < 14:
 			sc.Steps = append(sc.Steps, GStep{Act: "designate", S: sigOr("CMT"), W: int64(1 + r.Intn(7))})
 		case k < 17:
@@ -850,6 +868,36 @@ func gasVoteTraps() []*GScenario {
 
 // ---- traps ----
 
+// gasApproverTraps: with Notary, every account that could be mistaken for the approver tries each governed
+// operation: the chain's Alphabet account (2n/3+1), the committee majority (n/2+1), the 2k/3+1 and k/2+1 accounts of
+// the keys stored in the contract, single members, a stranger - on committees where the accounts differ (3, 7) and
+// coincide (1, 4). Documented approvers: cheque / setConfig / alphabetUpdate -> chain Alphabet account;
+// candidate removal -> the candidate or the 2k/3+1 account of the stored keys.
+func gasApproverTraps() []*GScenario {
+	var out []*GScenario
+	u1 := []string{"u1"}
+	for _, nc := range []int{3, 7, 4, 1} {
+		for _, ns := range []int{3, 4} {
+			sc := &GScenario{Notary: true, NS: ns, NC: nc, Idx: 0, Src: "trap:approver" + strconv.Itoa(nc) + "-" + strconv.Itoa(ns)}
+			sc.Steps = append(sc.Steps, GStep{Act: "deposit", S: u1, U: "u1", V: "u1", Amt: gasAmt(100, 0), K: "none"},
+				GStep{Act: "candAdd", S: []string{"c1"}, V: "c1"})
+			for i, a := range []string{"CMT", "STOREDMAJ", "STORED", "m0", "m" + strconv.Itoa(nc-1), "X", "k1", "ALPHA"} {
+				S := []string{a}
+				sc.Steps = append(sc.Steps,
+					GStep{Act: "cheque", S: S, V: "u2", Amt: gasAmt(1, int64(i)), ID: "i1"},
+					GStep{Act: "setFee", S: S, K: "wfee", Amt: gasAmt(0, int64(300_0000+i)), ID: "j1"},
+					GStep{Act: "withdraw", S: u1, U: "u1", W: 2},
+					GStep{Act: "setFee", S: S, K: "cfee", Amt: gasAmt(2, int64(i)), ID: "j1"},
+					GStep{Act: "alphaSame", S: S, ID: "a1"},
+					GStep{Act: "candRemove", S: S, V: "c1"},
+					GStep{Act: "candAdd", S: []string{"c1"}, V: "c1"})
+			}
+			out = append(out, sc)
+		}
+	}
+	return out
+}
+
 func gasTraps() []*GScenario {
 	var out []*GScenario
 	u1 := []string{"u1"}
@@ -938,6 +986,7 @@ func driveGas(t *testing.T, rec *chain.Recorder, raw []json.RawMessage, traps bo
 	if traps {
 		scs = append(scs, gasTraps()...)
 		scs = append(scs, gasVoteTraps()...)
+		scs = append(scs, gasApproverTraps()...)
 	}
 	for i := 0; i < nrand; i++ {
 		scs = append(scs, randGasScenario(r))
